@@ -20,6 +20,12 @@ none :: () -> ?i32 { nil }
 some :: () -> ?i32 { 5 }
 """
 
+PRELUDE_ERRU = """putchar :: (c: i32) -> i32 extern;
+Err :: enum { Bad, Worse: u8 };
+none :: () -> Err!i32 { e : Err = Err.Worse.(3); return e; }
+some :: () -> Err!i32 { 5 }
+"""
+
 
 class Gen:
     def __init__(self, draw):
@@ -106,7 +112,8 @@ class Gen:
 def cases(draw):
     g = Gen(draw)
     body = g.block(1, {"loops": [], "labels": []})
-    return {"body": body}
+    # the function returns an optional (`.try` propagates nil) or an error union (`.try` propagates the error)
+    return {"body": body, "ret": "erru" if draw(st.integers(0, 2)) == 0 else "opt"}
 
 
 def strategy(profile):
@@ -154,6 +161,10 @@ def src_stmts(stmts, ind):
 
 
 def program_src(case):
+    if case.get("ret") == "erru":
+        return (PRELUDE_ERRU + "f :: (flag: bool) -> Err!i32 {\n" + src_stmts(case["body"], 1) + "    42\n}\n"
+                "show :: (r: Err!i32) {\n    switch v in r {\n        i32 => { putchar(48 + v % 10); },\n        Err => { putchar(45); },\n    };\n}\n"
+                "main :: () {\n    show(f(true));\n    putchar(10);\n    show(f(false));\n    putchar(10);\n}\n")
     return (PRELUDE + "f :: (flag: bool) -> ?i32 {\n" + src_stmts(case["body"], 1) + "    42\n}\n"
             "show :: (r: ?i32) {\n    switch v in r {\n        i32 => { putchar(48 + v % 10); },\n        nil => { putchar(45); },\n    };\n}\n"
             "main :: () {\n    show(f(true));\n    putchar(10);\n    show(f(false));\n    putchar(10);\n}\n")
@@ -309,6 +320,7 @@ def check(case, stats, scratch, profile):
         stats.sample({"program": src, "stdout": got})
     for kk in _kinds(case["body"]):
         stats.cls("has." + kk)
+    stats.cls("returns." + case.get("ret", "opt"))
 
 
 def _kinds(stmts):
@@ -328,7 +340,7 @@ def replay_payload(payload, scratch):
 
 
 RULE = ("one function with <= 4 nested blocks / labeled blocks / while / loop, <= 3 defers per block at arbitrary positions, and break (labeled or not), "
-        "continue, return and .try-on-nil at arbitrary positions (unconditional, on a flag, or on a loop counter value); the function is run with flag = true and false. "
+        "continue, return and `.try` on nil / on an error (the function returns ?i32 or Err!i32) at arbitrary positions (unconditional, on a flag, or on a loop counter value); the function is run with flag = true and false. "
         "Non-trivial = at least one jump leaves a block holding a reached, pending defer; distinct by program text.")
 
 
